@@ -1,9 +1,11 @@
 (* Model/Slc.v — executable model of pycomm3/slc_driver.py: address parsing and the PCCC request /
    reply handling of SLCDriver.read / write.  Same names as the Python, function by function.
 
-     parse_tag            the cascade CT_RE, LFBN_RE, IO_RE, ST_RE, A_RE, S_RE, B_RE (all applied with
-                          [search]) with its range checks; a match whose range check fails FALLS THROUGH
-                          to the next pattern, exactly as the `if t: ... if (ranges): return` code does
+     parse_tag            the cascade CT_RE, LFBN_RE, IO_RE, ST_RE, A_RE, S_RE, B_RE (all applied with the
+                          method Gen/SlcTables.v records: fullmatch) with its range checks; a match whose
+                          range check fails FALLS THROUGH to the next pattern, exactly as the
+                          `if t: ... if (ranges): return` code does; the I/O branch `return None`s at once
+                          when the spelled file number is not the I/O file's
      _msg_start, _read_tag / _write_tag request bytes (message-router request of the connected item)
      writeable_value      mask + value
      request_status       byte 58 of the raw reply frame
@@ -35,7 +37,8 @@ Record tagd := {
 
 Inductive pres :=
   | PTag (t : tagd)
-  | PNone                          (* parse_tag returned None *)
+  | PNone                          (* a step: nothing returned, go on with the next pattern; parse_tag: None *)
+  | PStop                          (* a step executed `return None` *)
   | PExn (e : exn)                 (* an exception escaped (never for the regenerated patterns) *)
   | PFuel.                         (* the matcher ran out of fuel (never: fuel = S (length tag)) *)
 
@@ -76,8 +79,12 @@ Definition tag_name_of (whole : text) (cnt : option text) : text :=
   | None => whole
   end.
 
+(* X_RE.fullmatch(tag) / X_RE.search(tag), as parse_tag calls it *)
+Definition re_apply (rx : regex) (s : text) : sres :=
+  if PARSE_TAG_FULLMATCH then fullmatch rx s else search rx s.
+
 Definition search_then (rx : regex) (s : text) (k : text -> groups -> pres) : pres :=
-  match search rx s with
+  match re_apply rx s with
   | SMatch _ whole g => k whole g
   | SNoMatch => PNone
   | SOutOfFuel => PFuel
@@ -141,6 +148,9 @@ Definition step_io (s : text) : pres :=
     let file_number := if text_eqb (upper ft) [79] then 0 else 1 in      (* "0" if O else "1" *)
     pbind (gi IO_RE g "position_number") (fun pn =>
     pbind (match pn with None => Ok 0 | Some p => py_int p end) (fun pos =>
+    pbind (gi IO_RE g "file_number") (fun fno =>
+    pbind (match fno with None => Ok true | Some f => let* z := py_int f in Ok (z =? file_number) end) (fun file_ok =>
+    if negb file_ok then PStop else                                       (* return None *)
     pbind (gi IO_RE g "sub_element") (fun se =>
     pbind (gi IO_RE g "element_number") (fun eno => pbind (int_of eno) (fun el =>
     match se with
@@ -161,7 +171,7 @@ Definition step_io (s : text) : pres :=
                   t_pos_number := Some pos; t_sub_element := Some 0; t_address_field := 2;
                   t_element_count := cntv; t_tag := tag_name |}))
         else PNone
-    end))))))))).
+    end))))))))))).
 
 (* ST_RE and A_RE have the same body *)
 Definition step_plain (rx : regex) (s : text) : pres :=
@@ -228,13 +238,16 @@ Definition step_b (s : text) : pres :=
 Definition orelse (a : pres) (b : text -> pres) (s : text) : pres :=
   match a with PNone => b s | r => r end.
 
+Definition finish (r : pres) : pres := match r with PStop => PNone | r => r end.
+
 Definition parse_tag (s : text) : pres :=
+  finish (
   orelse (step_ct s) (fun s =>
   orelse (step_lfbn s) (fun s =>
   orelse (step_io s) (fun s =>
   orelse (step_plain ST_RE s) (fun s =>
   orelse (step_plain A_RE s) (fun s =>
-  orelse (step_s s) step_b s) s) s) s) s) s.
+  orelse (step_s s) step_b s) s) s) s) s) s).
 
 (* ------------------------------------------------------------------ element codecs *)
 Definition USINT_encode (z : Z) : res bytes := if in_urange 1 z then Ok [z] else Err DataError.
@@ -345,6 +358,10 @@ Definition writeable_value (t : tagd) (v : sval) : res bytes :=
       let* b := pack c v in Ok (bit_mask, b)) in
   Ok (fst mv ++ snd mv).
 
+(* _address_field(value): one byte for 0..254, 0xFF + two bytes little-endian from 255 on *)
+Definition address_field (z : Z) : res bytes :=
+  if z <? 255 then USINT_encode z else let* u := UINT_encode z in Ok (255 :: u).
+
 Inductive rq (A : Type) := RqOk (a : A) | RqErr (e : exn) | RqFuel.
 Arguments RqOk {A} a.
 Arguments RqErr {A} e.
@@ -356,20 +373,20 @@ Definition read_request (c : cfg) (tns : Z) (t : tagd) : res bytes :=
   let* tn := UINT_encode tns in
   let* dsz := dict_get pccc_data_size (t_file_type t) in
   let* size := USINT_encode (dsz * t_element_count t) in
-  let* fno := USINT_encode (t_file_number t) in
+  let* fno := address_field (t_file_number t) in
   let* ty := dict_get pccc_data_type (t_file_type t) in
-  let* el := USINT_encode (t_element_number t) in
-  let* sub := USINT_encode (pos_or_0 t) in
+  let* el := address_field (t_element_number t) in
+  let* sub := address_field (pos_or_0 t) in
   Ok (msg_start c ++ SLC_CMD_CODE ++ [0] ++ tn ++ SLC_FNC_READ ++ size ++ fno ++ ty ++ el ++ sub).
 
 Definition write_request (c : cfg) (tns : Z) (t : tagd) (v : sval) : res bytes :=
   let* dsz := dict_get pccc_data_size (t_file_type t) in
   let* tn := UINT_encode tns in
   let* size := USINT_encode (dsz * t_element_count t) in
-  let* fno := USINT_encode (t_file_number t) in
+  let* fno := address_field (t_file_number t) in
   let* ty := dict_get pccc_data_type (t_file_type t) in
-  let* el := USINT_encode (t_element_number t) in
-  let* sub := USINT_encode (pos_or_0 t) in
+  let* el := address_field (t_element_number t) in
+  let* sub := address_field (pos_or_0 t) in
   let* wv := writeable_value t v in
   Ok (msg_start c ++ SLC_CMD_CODE ++ [0] ++ tn ++ SLC_FNC_WRITE ++ size ++ fno ++ ty ++ el ++ sub ++ wv).
 
@@ -377,7 +394,7 @@ Definition write_request (c : cfg) (tns : Z) (t : tagd) (v : sval) : res bytes :
 Definition with_tag {A} (s : text) (k : tagd -> res A) : rq (tagd * A) :=
   match parse_tag s with
   | PTag t => match k t with Ok a => RqOk (t, a) | Err e => RqErr e end
-  | PNone => RqErr RequestError
+  | PNone | PStop => RqErr RequestError
   | PExn e => RqErr e
   | PFuel => RqFuel
   end.
